@@ -212,6 +212,9 @@ def run(ctx):
                           "the style of a parser scalar is rewritten on some path before delivery (`%s`): an anchored empty quoted string `&a \"\"` becomes a plain empty scalar, i.e. null" % st[:100], config, ctx.where(ni, b))
                 ctx.check("phi(" not in vl, "TRANSPARENT", "C02:TRANSPARENT:scalar-value", "the delivered scalar's text is the parser's", "the text of a parser scalar is rewritten on some path before delivery", config, ctx.where(ni, b))
         ctx.floor("TRANSPARENT.scalar-sites", nt, 1, config)
+        # an anchor on a `<<` key does not change what the key is (shared rule, C03)
+        from .C03 import rule_merge_key_variant_blind
+        rule_merge_key_variant_blind(ctx, fx, config, prop="C02")
         # ---- ORDER: parser pulled only when the replay stack is empty
         pulls = [b for b, t in ni.calls() if fx.callee(t) == "live_events::SaphyrParser::next"]
         empty_edges = []
